@@ -65,7 +65,7 @@ def _setup():
 TLEN = 80  # fixed table length (one jit cache entry)
 # How the scripted ranks become loss values (base, scale): the order is the same, the float64 values are exact, but under the
 # last two neighbouring losses differ by less than float32 resolution (seeded change C16f located the minimum in single precision)
-SPACINGS = [(0.0, 1.0), (1.0, 2.0 ** -40), (2.0 ** 25, 1.0)]
+SPACINGS = [(0.0, 1.0), (1.0, 2.0 ** -40), (2.0 ** 25, 1.0), (-1.0, 1.0), (-2.0, 1.0)]  # the last two: a loss of exactly 0.0 (the minimum / the runner-up) and negative losses (seeded change C16g treated a best loss of 0.0 as unset)
 
 
 def _lossval(v, sp):
@@ -233,7 +233,7 @@ def run(ctx):
         if case[0] == "data":
             _, kind, vals, P, m, rb, nb = case
             kinds = (int(r.integers(0, 4)), int(r.integers(0, 2)) * 1) if r.random() < 0.3 else (0, 0)
-            sp = SPACINGS[int(r.integers(0, 3))] if kind != "perm" or r.random() < 0.15 else SPACINGS[0]
+            sp = SPACINGS[int(r.integers(0, len(SPACINGS)))] if kind != "perm" or r.random() < 0.15 else SPACINGS[0]
             obs = run_data(vals, P, m, rb, nb, kinds, sp)
             a, nt, nv = map(int, mout.split())
             exp = (a * nb, nt, nv)
@@ -254,7 +254,7 @@ def run(ctx):
                 )
         elif case[0] == "var":
             _, kind, vals, steps, rb = case
-            sp = SPACINGS[int(r.integers(0, 3))] if kind != "perm" or r.random() < 0.15 else SPACINGS[0]
+            sp = SPACINGS[int(r.integers(0, len(SPACINGS)))] if kind != "perm" or r.random() < 0.15 else SPACINGS[0]
             obs = run_var(vals, steps, rb, sp)
             a, n = map(int, mout.split())
             exp, got = (a, n), (obs[0], len(obs[1]))
@@ -275,7 +275,7 @@ def run(ctx):
                 )
         else:
             _, kind, vals = case
-            sp = SPACINGS[int(r.integers(0, 3))]
+            sp = SPACINGS[int(r.integers(0, len(SPACINGS)))]
             got = int(s["count_fruitless"]([_lossval(v, sp) for v in vals]))
             exp = int(mout)
             u3.count(case, nontrivial=len(set(vals)) < len(vals) or exp > 0, tag=kind)
